@@ -60,10 +60,33 @@ fn send(c: &mut Client, bodies: &mut Bodies, op: &J) -> usize {
     "eval" => c.request("POST", &format!("/evaluate/{}/v", op["nm"].as_str().unwrap()), "text/plain", b"{}"),
     "evalinv" => c.request("POST", &format!("/evaluate/{}/nosuchinvocable", op["nm"].as_str().unwrap()), "text/plain", b"{}"),
     "bad" => match op["kind"].as_str().unwrap_or("") {
-      "bad-json" => c.request("POST", "/definitions/add", js, b"{\"content\": "),
-      "bad-base64" => c.request("POST", "/definitions/add", js, b"{\"content\": \"!!!not*base64!!!\"}"),
-      "bad-utf8" => c.request("POST", "/definitions/add", js, json!({"content": base64::encode([0xffu8, 0xfe, 0x00, 0xc3])}).to_string().as_bytes()),
-      "bad-xml" => c.request("POST", "/definitions/replace", js, json!({"content": base64::encode("<definitions><decision")}).to_string().as_bytes()),
+      // every malformed kind rotates through a pool of concrete bodies (the k-th use takes the k-th variant)
+      "bad-json" => {
+        let k = VARIANT.fetch_add(1, std::sync::atomic::Ordering::SeqCst);
+        let pool: [&[u8]; 6] = [b"{\"content\": ", b"{\"content\": \"QUJD\"", b"[1, 2", b"{\"content\": \"\xff\xfe\"}", b"{\"content\": nul}", b"\"just a string\""];
+        c.request("POST", if k % 2 == 0 { "/definitions/add" } else { "/definitions/replace" }, js, pool[k % pool.len()])
+      }
+      "bad-base64" => {
+        let k = VARIANT.fetch_add(1, std::sync::atomic::Ordering::SeqCst);
+        // not Base64: plain punctuation, and non-ASCII characters at every byte offset around 32, short and long
+        let content = if k % 7 == 0 {
+          "!!!not*base64!!!".to_string()
+        } else {
+          let ch = ['\u{e9}', '\u{20ac}', '\u{1F600}', '*'][k % 4];
+          format!("{}{}{}", "A".repeat(24 + (k / 4) % 12), ch, "*".repeat((k % 5) * 9))
+        };
+        c.request("POST", if k % 2 == 0 { "/definitions/add" } else { "/definitions/replace" }, js, json!({"content": content}).to_string().as_bytes())
+      }
+      "bad-utf8" => {
+        let k = VARIANT.fetch_add(1, std::sync::atomic::Ordering::SeqCst);
+        let pool: [&[u8]; 4] = [&[0xff, 0xfe, 0x00, 0xc3], &[0xc3], &[0xed, 0xa0, 0x80], &[0x3c, 0x61, 0xf0, 0x9f, 0x98]];
+        c.request("POST", "/definitions/add", js, json!({"content": base64::encode(pool[k % pool.len()])}).to_string().as_bytes())
+      }
+      "bad-xml" => {
+        let k = VARIANT.fetch_add(1, std::sync::atomic::Ordering::SeqCst);
+        let pool = ["<definitions><decision", "", "<a></b>", "<definitions xmlns=\"https://www.omg.org/spec/DMN/20191111/MODEL/\"/>", "not xml at all \u{1F600}", "<?xml version=\"1.0\"?>"];
+        c.request("POST", if k % 2 == 0 { "/definitions/replace" } else { "/definitions/add" }, js, json!({"content": base64::encode(pool[k % pool.len()])}).to_string().as_bytes())
+      }
       "no-content" => c.request("POST", "/definitions/add", js, b"{}"),
       "no-name" => c.request("POST", "/definitions/remove", js, b"{\"namespace\": \"ns1\"}"),
       "no-namespace" => c.request("POST", "/definitions/remove", js, b"{\"name\": \"n1\"}"),
@@ -76,6 +99,8 @@ fn send(c: &mut Client, bodies: &mut Bodies, op: &J) -> usize {
   };
   bodies.add(r.as_ref().map(|r| r.body.as_slice()))
 }
+
+static VARIANT: std::sync::atomic::AtomicUsize = std::sync::atomic::AtomicUsize::new(0);
 
 fn probe(c: &mut Client, bodies: &mut Bodies) -> J {
   let mut v = vec![];
